@@ -130,7 +130,7 @@ def first_kind(rs: dict, stage: str) -> str:
         return "decompiled_wrong:starts_with_jump_into_complex_loop"
     if "empty_test" in sh and "complex_loop" in sh:
         return "decompiled_wrong:empty_test_in_complex_loop"
-    if "multi_exit_loop" in sh and "test_falls_into_join" in sh:
+    if "multi_exit_loop" in sh and ("test_falls_into_join" in sh or "complex_loop" in sh):
         return "decompiled_wrong:multi_exit_loop"
     if "has_call_op" in sh and "cross_routine_jump" in sh and "switch_fallthrough" in sh:
         return "decompiled_wrong:call_cross_routine_and_switch_fallthrough"
